@@ -284,7 +284,7 @@ class C14:
                 sc = "c14"
                 opts = HAND[sc]
             else:
-                opts = decorate(draw(schemas(nocase=bool(flags & F_NOCASE), allow_deprecated=False, allow_keystrval=False)), draw)
+                opts = decorate(draw(schemas(nocase=bool(flags & F_NOCASE), allow_deprecated=True, allow_keystrval=False)), draw)
                 sc = opts
             toks = draw(gen_text.text_tokens(opts, flags, max_items=5, allow_unknown=False, bad_p=0.0))
             cand = ["|".join(p) for p, o in walk(opts) if (o.get("cb", 0) & CB_VALID)]
